@@ -42,6 +42,16 @@ type dCtxErr struct {
 	ctxErr error
 }
 
+// dFamErr: errors of one family -- errors.Is says any two of them are "the same" error (a sentinel
+// several nodes return, each wrapping where it happened). They are still one warning each.
+type dFamErr struct{ dErr }
+
+func (e dFamErr) Unwrap() error { return e.dErr }
+func (e dFamErr) Is(t error) bool {
+	_, ok := t.(dFamErr)
+	return ok
+}
+
 func (e dCtxErr) Error() string   { return e.dErr.Error() + ": " + e.ctxErr.Error() }
 func (e dCtxErr) Unwrap() []error { return []error{e.dErr, e.ctxErr} }
 
@@ -91,6 +101,9 @@ func (n *dNode) Process(ctx context.Context, e *eventlogger.Event) (*eventlogger
 	default:
 		err = dErr{n.p, n.k}
 	}
+	if de, ok := err.(dErr); ok && n.h.famErrs {
+		err = dFamErr{de}
+	}
 	n.h.mu.Lock()
 	n.h.calls = append(n.h.calls, dCall{n.p, n.k, e, out, err})
 	n.h.mu.Unlock()
@@ -113,6 +126,7 @@ type dispHarness struct {
 	closedCh chan struct{}
 	closeOne sync.Once
 	defs     map[int]eventlogger.Pipeline
+	famErrs  bool
 	st       *stats
 	b        *eventlogger.Broker
 }
@@ -205,6 +219,7 @@ func (c dispCase) String() string {
 // runDispatch executes one Send and returns the trace lines (ops) with the implementation's verdict lines.
 func runDispatch(c dispCase, seed uint64, st *stats, oracle func(string, ...any)) (ops, impl []string) {
 	h := &dispHarness{idOf: map[eventlogger.NodeID][2]int{}, prng: newPrng(seed), perturb: c.perturb, cancelAt: c.cancelAt, closedCh: make(chan struct{}), st: st}
+	h.famErrs = (len(c.outs)+c.perturb+c.thr)%3 == 0 // a third of the cases: the failing nodes return errors of one family
 	b, _ := eventlogger.NewBroker()
 	h.b = b
 	var slowNodes []*dNode
